@@ -214,20 +214,33 @@ pub fn exec_jump(case: &J, acc: &mut Acc) -> Result<(), Fail> {
     let ops = ops_from_json(&case["ops"]);
     let target = case["target"].as_str().unwrap_or("land").to_string();
     acc.eval();
-    let run = |prefix: &[HostOp]| {
+    let run = |prefix: &[HostOp], reset: bool| {
         guard(|| {
             let mut h = Host::new(&json_text, meta.clone(), &cfg).map_err(|e| e.to_string())?;
             h.run(prefix);
             let depth = h.story.save_state().ok().map(|s| save_facts(&s));
             h.trace.clear();
-            h.apply(&HostOp::ChoosePath { path: target.clone(), reset: true, args: vec![] });
+            h.apply(&HostOp::ChoosePath { path: target.clone(), reset, args: vec![] });
             h.run(&tail(0, 2));
             let stack_after = h.story.save_state().ok().map(|s| save_facts(&s));
             Ok::<_, String>((depth, h.trace.clone(), stack_after, h.fuel_exhausted()))
         })
     };
-    let a = run(&ops);
-    let b = run(&[]);
+    let a = run(&ops, true);
+    let b = run(&[], true);
+    // on the flat call stack of a fresh story a jump with reset is a plain jump
+    let c = run(&[], false);
+    if let (Ok(Ok((_, tb, _, fb))), Ok(Ok((_, tc, _, fc)))) = (&b, &c) {
+        if !fb && !fc {
+            if let Some((i, x, y)) = first_diff(&no_msgs(tb), &no_msgs(tc)) {
+                return Err(Fail::violation(
+                    "jump-reset-differs-from-plain-jump",
+                    format!("from a fresh story choose_path_string(.., reset=true) and (.., reset=false) behave differently at observation {i}: with reset {x} / without {y}"),
+                    case.clone(),
+                ));
+            }
+        }
+    }
     match (a, b) {
         (Err(p), _) | (_, Err(p)) => Err(panic_fail(&p, "path jump", case)),
         (Ok(Ok((da, ta, _sa, fa))), Ok(Ok((_db, tb, _sb, fb)))) => {
@@ -289,6 +302,8 @@ fn jump_source(t: &mut crate::pgen::Tape) -> (String, Vec<HostOp>) {
     s.push_str("=== thr ===\nThread text.\nMore thread text.\n* [thread choice]\n    From thread.\n    -> END\n");
     let ending = ["->->", "-> END", "-> DONE"][t.pick(3)];
     s.push_str(&format!("=== land ===\nLanded.\n* [go on]\n    On we go.\n    {ending}\n* [stop]\n    {ending}\n"));
+    // a target that runs out of content at once (no text, no END), and one that does after a line
+    s.push_str("=== loose ===\n~ n = n + 5\n=== loose2 ===\nLoose line.\n~ n = n + 7\n");
     let n = t.pick(4);
     for _ in 0..n {
         ops.push(HostOp::ChooseMod(t.pick(3)));
@@ -388,7 +403,10 @@ pub fn run(env: &Env) -> i32 {
         |tape: &Vec<u16>, acc: &mut Acc| {
             let mut t = crate::pgen::Tape::new(tape);
             let (src, ops) = jump_source(&mut t);
-            let case = json!({"kind": "jump", "source": src, "cfg": cfg_to_json(&HostCfg::default()), "ops": ops_to_json(&ops), "target": "land"});
+            let target = ["land", "land", "loose", "loose2"][t.pick(4)];
+            let handler = t.chance(1, 2);
+            let case = json!({"kind": "jump", "source": src, "cfg": cfg_to_json(&HostCfg { handler, ..HostCfg::default() }), "ops": ops_to_json(&ops), "target": target});
+            acc.class(&format!("jump_target:{target}"));
             exec_jump(&case, acc)
         },
     );
